@@ -151,6 +151,22 @@ pub fn views<K: Kind>(shapes: &[K]) -> Vec<Geom> {
     shapes.iter().map(|s| s.view()).collect()
 }
 
+/// Every shape seen through the alternative accessors equals the shape seen through the main ones.
+pub fn accessors_agree<K: Kind>(shapes: &[K]) -> Result<(), String> {
+    for (i, s) in shapes.iter().enumerate() {
+        let v = s.view();
+        match s.alt_view() {
+            Ok(a) => {
+                if a != v {
+                    return Err(format!("shape {} ({}): the indexed getters / into_inner / AsRef view differs from the parts()/rings()/patches() view: {}", i, v.short(), same_geom(&v, &a).err().unwrap_or_default()));
+                }
+            }
+            Err(m) => return Err(format!("shape {} ({}): {}", i, v.short(), m)),
+        }
+    }
+    Ok(())
+}
+
 pub type MemReader = ShapeReader<Cursor<Vec<u8>>>;
 
 pub fn open_mem(shp: &[u8], shx: Option<&[u8]>) -> Result<MemReader, Error> {
